@@ -634,6 +634,45 @@ def tail_cases(wd, quick):
     return cases
 
 
+def producer_cases(wd, cfgname, tag):
+    """realisable archives enumerated by TLC (MC_Producer with Emit)"""
+    cfg = os.path.join(wd, cfgname.replace(".cfg", "_emit.cfg"))
+    with open(os.path.join(vlib.SPEC, cfgname)) as f:
+        txt = f.read().replace("Emit = FALSE", "Emit = TRUE") + "INVARIANT EmitCase\n"
+    with open(cfg, "w") as f:
+        f.write(txt)
+    r = vlib.tlc_run("MC_Producer.tla", cfg, wd, workers=1, timeout=1800, tag=tag)
+    cases, seen = [], set()
+    for m in re.finditer(r'<<"CASE", "(.*)">>', r["out"]):
+        s = m.group(1)
+        if s in seen:
+            continue
+        seen.add(s)
+        cases.append(json.loads(json.loads('"' + s + '"')))
+    if not cases:
+        log(r["out"][-2000:])
+        raise ToolTrouble("MC_Producer emitted no cases")
+    return cases
+
+
+PRODUCER_MUTANTS = ("cs_first", "either_both", "always_all", "first_record_only", "central_xlen", "local_sizes", "first_dup")
+
+
+def mc_producer(rep, wd, tier, mutants=PRODUCER_MUTANTS, one_entry_only=False):
+    """Producer.tla: field-level reader model against every layout freedom of an independent producer"""
+    for cfg in ["MC_Producer1.cfg"] + ([] if one_entry_only else ["MC_Producer2.cfg", "MC_Producer2_full.cfg"] if tier == "thorough" else ["MC_Producer2_tiny.cfg"]):
+        r = vlib.tlc_mc("MC_Producer.tla", cfg, wd, timeout=3000, tag="mc-" + cfg[:-4])
+        rep.add_mc(r, cfg)
+        if r["error"]:
+            rep.spec_violation(r, cfg)
+    for bug in mutants:
+        r = vlib.tlc_mc("MC_Producer.tla", "MC_Producer_%s.cfg" % bug, wd, timeout=600, tag="mc-prod-" + bug)
+        found = bool(r["error"]) and "ReaderFaithful" in r["error"]
+        rep.neg_controls.append({"spec_mutant": "reader:" + bug, "expected_violation": "ReaderFaithful", "found": found})
+        if not found:
+            raise ToolTrouble("spec mutant %s of the reader model not detected" % bug)
+
+
 def c03(tier):
     rep = Report("C03", tier)
     wd = vlib.workdir("C03", tier)
@@ -664,6 +703,18 @@ def c03(tier):
     rep.notes["tail_cases_model"] = len(cases)
     rep.notes["tail_cases_materialised"] = len(scs)
     run_reader_scenarios(rep, wd, scs, "tails")
+    # Producer.tla: the field-level reader model decodes every layout an independent producer may emit (ReaderFaithful; seven
+    # reader mutants found); every realisable archive of the one-entry model, and of the two-entry model (quick: a seeded sample),
+    # is materialised by the independent builder and opened by the real reader
+    mc_producer(rep, wd, tier)
+    pc1 = producer_cases(wd, "MC_Producer1.cfg", "emit-p1")
+    pc2 = producer_cases(wd, "MC_Producer2.cfg" if tier == "thorough" else "MC_Producer2_tiny.cfg", "emit-p2")
+    rep.notes["producer_cases_model"] = {"one_entry": len(pc1), "two_entries": len(pc2)}
+    if tier == "quick":
+        pc2 = rnd.sample(pc2, min(len(pc2), 1500))
+    scs = [gen_reader.from_producer_case("q%05d" % i, A) for i, A in enumerate(pc1 + pc2)]
+    rep.notes["producer_cases_materialised"] = len(scs)
+    run_reader_scenarios(rep, wd, scs, "producer-model")
     # independent producer with every per-entry freedom; CPython as a second producer
     n = 600 if tier == "quick" else 6000
     scs = []
@@ -2701,6 +2752,8 @@ def c08(tier):
             log(tail)
             raise ToolTrouble("Apalache did not discharge BigProof!Laws")
         rep.notes["apalache_obligations"] = {"obligations": 1, "discharged": 1, "spec": "BigProof.tla (Laws: limb split, add, sub, <, <= agree with integer arithmetic for all naturals, base 2^24)"}
+    # the reader side at model level: every ZIP64 layout an independent producer may emit is decoded exactly (Producer.tla)
+    mc_producer(rep, wd, tier, mutants=("cs_first", "either_both", "always_all", "first_record_only"), one_entry_only=True)
     # the writer model at scaled thresholds (NoWrappedSizes, LayoutWellFormed around Thr16/ThrN/Thr32)
     mc_writer(rep, wd, "quick")
     sd = vlib.seed()
